@@ -35,7 +35,8 @@ META = {
 
 SEQS: List[Tuple[str, ...]] = [tuple("F" * k + x) for k in range(MAX_ATTEMPTS) for x in "SN"] + [tuple("F" * MAX_ATTEMPTS)]
 # 'C' = the attempt fails with asyncio.CancelledError raised from the task body (a failure like any other)
-SEQS += [tuple("CS"), tuple("FCS"), tuple("CCCC"), tuple("CFN")]
+# 'R' = the attempt fails by rejecting the message (Context.reject() -> TaskRejectedError), also a failure
+SEQS += [tuple("CS"), tuple("FCS"), tuple("CCCC"), tuple("CFN"), tuple("RS"), tuple("RRS"), tuple("FRRR")]
 MAXR = [("int", m) for m in range(7)] + [("str", m) for m in range(7)] + [("default", m) for m in range(7)]
 ROE = [("bool", True), ("bool", False), ("str", "True"), ("str", "true"), ("str", "False"), ("default", True), ("default", False)]
 
@@ -115,6 +116,8 @@ def run_case(case: Tuple[Any, ...], acc: Acc, seen: set) -> None:
             import asyncio
 
             raise asyncio.CancelledError()
+        if o == "R":
+            ctx.reject()
         raise ValueError("attempt failed")
 
     job.__module__ = "mc.props.c11"
@@ -154,15 +157,15 @@ def run_case(case: Tuple[Any, ...], acc: Acc, seen: set) -> None:
     acc.count("cases")
     # ---- reference model
     enabled = roe if roe_kind != "str" else (roe.lower() == "true")
-    first_nonfail = next((i + 1 for i, o in enumerate(seq) if o not in "FC"), None)
-    if not enabled or seq[0] not in "FC":
+    first_nonfail = next((i + 1 for i, o in enumerate(seq) if o not in "FCR"), None)
+    if not enabled or seq[0] not in "FCR":
         want = 1
     else:
         want = min(first_nonfail if first_nonfail is not None else 10**9, max(1, mr))
     final = seq[want - 1] if want - 1 < len(seq) else "F"
     if want > 1:
         acc.count("cases_with_retry")
-    if enabled and seq[0] in "FC" and final in "FC" and want == max(1, mr) and mr >= 2:
+    if enabled and seq[0] in "FCR" and final in "FCR" and want == max(1, mr) and mr >= 2:
         acc.count("cases_budget_exhausted")
     want_stored = (0 if nror else want - 1) + (0 if final == "N" else 1)
     acc.outcome((want, final, nror, want_stored))
@@ -198,6 +201,7 @@ def run_case(case: Tuple[Any, ...], acc: Acc, seen: set) -> None:
             (final == "S" and not res.is_err and res.return_value == "done")
             or (final == "F" and res.is_err and isinstance(res.error, ValueError))
             or (final == "C" and res.is_err and isinstance(res.error, _aio.CancelledError))
+            or (final == "R" and res.is_err and type(res.error).__name__ == "TaskRejectedError")
         )
         if tid != "tid" or not ok:
             acc.violation("final-result-wrong", f"final stored result ({tid}, is_err={res.is_err}, value={res.return_value!r}, error={res.error!r}) does not reflect the final attempt {final} for {desc}", {"case": list(case)})
